@@ -1,6 +1,7 @@
 package rules
 
 import (
+	"sort"
 	"go/token"
 	"go/types"
 	"strings"
@@ -193,6 +194,68 @@ func runC05(c *Ctx) {
 		}
 	}
 	r.Floor("single-conversion", n, 12, "Location sinks in the tokenizer")
+	// offset-only: the conversion is a function of the byte offset and the line table. The Line/Column the cursor
+	// carries are bookkeeping that the scanners maintain loosely (the column restarts at 0 or at 1 after a newline
+	// depending on the scanner; a jump of the offset leaves the line behind); a conversion that starts from them
+	// inherits every such slip.
+	r.Rule("offset-only", "the conversion functions (and what they call inside the tokenizer) read only the Index of a Position, never its Line or Column")
+	{
+		inTok := func(f *ssa.Function) bool { return f != nil && f.Blocks != nil && core.InPkgs(f, "pkg/sql/tokenizer") }
+		var roots []*ssa.Function
+		for f := range conv {
+			roots = append(roots, f)
+		}
+		sort.Slice(roots, func(i, j int) bool { return core.FnName(roots[i]) < core.FnName(roots[j]) })
+		reach := p.Reachable(roots, inTok)
+		var fs []*ssa.Function
+		for f := range reach {
+			fs = append(fs, f)
+		}
+		sort.Slice(fs, func(i, j int) bool { return core.FnName(fs[i]) < core.FnName(fs[j]) })
+		bad := 0
+		for _, f := range fs {
+			seq := 0
+			for _, b := range f.Blocks {
+				for _, in := range b.Instrs {
+					var xt types.Type
+					var fi int
+					var pos token.Pos
+					switch x := in.(type) {
+					case *ssa.FieldAddr:
+						xt, fi, pos = x.X.Type(), x.Field, x.Pos()
+						// an address taken only to store into the field is not a read
+						onlyStores := true
+						for _, ref := range core.Referrers(x) {
+							if st, ok := ref.(*ssa.Store); !ok || st.Addr != ssa.Value(x) {
+								onlyStores = false
+							}
+						}
+						if onlyStores {
+							continue
+						}
+					case *ssa.Field:
+						xt, fi, pos = x.X.Type(), x.Field, x.Pos()
+					default:
+						continue
+					}
+					nt := core.NamedOf(xt)
+					if nt == nil || nt.Obj().Name() != "Position" || nt.Obj().Pkg() == nil || !core.PathHasSuffix(nt.Obj().Pkg().Path(), "pkg/sql/tokenizer") {
+						continue
+					}
+					fname := core.FieldName(xt, fi)
+					if fname != "Line" && fname != "Column" {
+						continue
+					}
+					bad++
+					seq++
+					r.Violate("offset-only", core.FnName(f)+sprintf("|%s#%d", fname, seq), p.Pos(pos), "the conversion reads the cursor's own "+fname+" instead of deriving it from the offset and the line table: every scanner that moves the offset without keeping "+fname+" exact now shifts the reported positions")
+				}
+			}
+		}
+		if bad == 0 {
+			r.OK("offset-only", "conversions", "-", sprintf("%d functions reachable from the %d conversion functions read Position.Index only", len(fs), len(conv)))
+		}
+	}
 	runC05Start(c, conv)
 	runC05Lookahead(c)
 	c05Lockstep(c, c.P)
